@@ -545,6 +545,17 @@ fn rule_of(prop: &str) -> String {
         "C09" => "non-trivial: a non-failing run with non-empty previous and current data; distinct by the set of content ids in the output",
         "C10" => "non-trivial: produced trace containing at least one par or fold entry; distinct by structural shape string",
         "C19" => "non-trivial: a run with next peers or call requests; distinct by (peer, next peers, request ids)",
+        "C08" => "non-trivial: a history whose >=3 data blobs with >=2 distinct results were merged in 3 orders, one grouping and at a participant; distinct by the set of content ids",
+        "C11" => "non-trivial: a canon instance whose value was seen by a second call (another peer or a later time) and compared, or a first canon execution whose content was checked against the stream; distinct by canon instance, value and reader",
+        "C12" => "non-trivial: a run in which a stream held values of the previous data and values that came only with the current data; distinct by the per-stream (generation, content id) lists",
+        "C13" => "non-trivial: a local canon over >=2 appends checked against the replayed appends, or a quiescent fold whose visits were compared with the stream; distinct by value lists",
+        "C14" => "non-trivial: a forged message delivered to an honest peer and either rejected as required or compared position by position with its untampered twin; distinct by (op kinds, result code / trace length)",
+        "C15" => "non-trivial: an equivocation (incomparable multisets) that was rejected, or a nested pair with different sizes whose kept signature was checked; distinct by (peer, set sizes)",
+        "C16" | "C17" => "non-trivial: a call request matched against the reference evaluator (C17: with a non-literal origin or a lens); distinct by (function, arguments) resp. expected tetraplets",
+        "C18" => "non-trivial: a history in which the xor right branch ran and its (error_code, message) was compared with the uncaught variant; distinct by the compared pairs and script size",
+        "C20" => "non-trivial: a history whose digests agreed under both hash-seed families, or a run with >=2 requests/next peers (or a 30000) re-executed in-process; distinct by history resp. outcome",
+        "C21" => "non-trivial: a run whose current data carried a stamped version, accepted or rejected as required; distinct by (version, receiving peer, size of its previous data)",
+        "C22" => "non-trivial: a limit configuration evaluated against a run (hard reject, or soft flags + equality with the unlimited twin); distinct by (mode, limits, exceeded set, script and data sizes)",
         _ => "non-trivial: a history that executed >=4 interpreter runs; distinct by script and interleaving",
     };
     format!("histories are generated from (VERIF_SEED, property, index) by the grammar-directed script generator and the seeded scheduler/fault injector (DESIGN.md 2); {specific}")
